@@ -25,8 +25,8 @@ RULE = ("every history up to the depth bound over {assign(v) for v in the "
 EXPLANATION = ("direct exploration; reference model = counts_as_change(mode, "
                "old, new) from the statement evaluated on the objects stored "
                "before/after")
-BOUNDS = {"quick": "depth 3, all configurations x 7 raising variants",
-          "thorough": "depth 4"}
+BOUNDS = {"quick": "depth 4, all configurations x 7 raising variants",
+          "thorough": "depth 6"}
 ASSUMPTIONS = ["dispatch='same' only", "for a value whose == raises the "
                "statement leaves the verdict open: only agreement between the"
                " mechanisms is required"]
@@ -335,7 +335,7 @@ def canon(rig):
 
 def run_shard(ctx, shard, tier):
     kind, mode, raiser = shard["kind"], shard["mode"], shard["raiser"]
-    depth = 3 if tier == "quick" else 4
+    depth = 4 if tier == "quick" else 6
     evs = events(kind)
     # stateless enumeration of all histories up to `depth` with canonical
     # state dedup: extend a history only from the first history that reached
